@@ -970,6 +970,22 @@ func ruleRefStore(c *Ctx) {
 		c.undecided(rule, "family", token.NoPos, "expander family not found by role")
 		return
 	}
+	// The chain dereference hands its callers the value it filled; what it leaves in that value's Ref is
+	// transient as long as every caller is a family member (those clear it on every successful path: ref-clear).
+	chain := c.chainDeref(fam)
+	chainCallersClear := chain != nil
+	if chain != nil {
+		for _, g := range c.pkgFuncs() {
+			if g == chain {
+				continue
+			}
+			for _, h := range c.staticCallees(g) {
+				if h == chain && !fam.members[g] {
+					chainCallersClear = false
+				}
+			}
+		}
+	}
 	for _, f := range fam.order {
 		fd := c.decl(f)
 		fn := c.funcName(fd)
@@ -1038,6 +1054,8 @@ func ruleRefStore(c *Ctx) {
 					}
 				case "abs":
 					switch {
+					case f == chain && chainCallersClear:
+						// absolute form left for the callers of the chain dereference, which clear it (ref-clear)
 					case emptyRoot:
 					case circular && optionLit("AbsoluteCircularRef", false):
 					case circular:
